@@ -284,7 +284,7 @@ def _mk(t):
 
 TOKENS = ["a", "b", "x", "t", "(", ")", "|", "+", "*", "?", "{", "}", "1", "2", ","]
 # "wide" expressions: sequences of these items (NFAs with two-digit node numbers, many subset states)
-FLAT_ITEMS = ["a", "b", "c?", "a*", "b+", "a{2}", "c{2,}", "(a | b)", "(b c)?", "(a b | c){1,2}"]
+FLAT_ITEMS = ["a", "b", "c?", "a*", "b+", "a{2}", "c{2,}", "(a | b)", "(b c)?", "(a b | c){1,2}", "a{1,3}", "(c b){0,4}"]
 
 
 def run_unit(u):
